@@ -382,3 +382,66 @@ Definition u_eliminate (a : sx) : sx :=
                  | _, _ => bad_input end
   | _ => bad_input
   end.
+
+(* ------------------------------------------------------------------ C13 *)
+From VL Require Import Prelude.GDict Model.Convert.
+
+Definition as_item (s : sx) : option item :=
+  match s with
+  | A (Zpos c) => Some (IP c)
+  | L l => match opt_map as_pos l with Some l => Some (IS l) | None => None end
+  | _ => None
+  end.
+Definition as_rprofile (s : sx) : option (list (ranked * Q)) := as_dict (as_listof as_item) as_Q s.
+Definition as_aprofile (s : sx) : option (list (list C * Q)) := as_dict (as_listof as_pos) as_Q s.
+Definition as_sprofile (s : sx) : option (list (sballot * Q)) := as_dict (as_dict as_pos as_Q) as_Q s.
+Definition as_scorer_r (s : sx) : option Convert.scorer :=
+  match s with
+  | L [A 1; A b] => Some (Borda b)
+  | L [A 2] => Some Dowdall
+  | L [A 3; A b] => Some (Geometric b)
+  | L [A 4] => Some ModifiedBorda
+  | L [A 5; A t] => Some (FixedTop t)
+  | L [A 6; q] => match as_listof as_Q q with Some q => Some (SequenceBased q) | None => None end
+  | _ => None
+  end.
+Definition of_gdict (d : list (sx * Q)) : sx := ok (L (map (fun kv => L [fst kv; of_Q (snd kv)]) d)).
+Definition of_ogdict (d : option (list (sx * Q))) : sx := match d with Some d => of_gdict d | None => unmodelled end.
+
+(* args: (kind cfg votes) *)
+Definition u_convert (a : sx) : sx :=
+  match a with
+  | L [A 1; sp; v] => match as_bool sp, as_aprofile v with
+                      | Some sp, Some v => of_gdict (dconv (img_approval_simple sp) v) | _, _ => bad_input end
+  | L [A 2; _; v] => match as_rprofile v with Some v => of_gdict (dconv img_first v) | None => bad_input end
+  | L [A 3; n; v] => match as_nat n, as_rprofile v with
+                     | Some n, Some v => of_ogdict (oconv (img_first_n n) v) | _, _ => bad_input end
+  | L [A 4; _; v] => match as_rprofile v with Some v => of_gdict (dconv img_presence v) | None => bad_input end
+  | L [A 5; _; v] => match as_rprofile v with Some v => of_gdict (dconv img_ranked_approval v) | None => bad_input end
+  | L [A 6; sc; v] => match as_scorer_r sc, as_rprofile v with
+                      | Some sc, Some v =>
+                          match oconv (img_positional sc (length (cands_ranked v))) v with
+                          | Some d => of_gdict d
+                          | None => err E_VALUE
+                          end
+                      | _, _ => bad_input end
+  | L [A 7; bt; v] => match as_bool bt, as_rprofile v with
+                      | Some bt, Some v => of_gdict (dconv (img_condorcet bt (cands_ranked v)) v) | _, _ => bad_input end
+  | L [A 8; un; v] => match as_opt as_Q un, as_sprofile v with
+                      | Some un, Some v => of_gdict (dconv (img_score_ranked un (cands_score v)) v) | _, _ => bad_input end
+  | L [A 9; th; v] => match as_Q th, as_sprofile v with
+                      | Some th, Some v => of_gdict (dconv (img_score_approval th) v) | _, _ => bad_input end
+  | L [A 10; _; v] => match as_aprofile v with
+                      | Some v => of_gdict (dconv (img_inverted_approval (cands_approval v)) v) | None => bad_input end
+  | L [A 11; pm; v] => match as_dict as_pos as_Z pm, as_dict as_pos as_Q v with
+                       | Some pm, Some v => of_gdict (dconv (img_party pm) v) | _, _ => bad_input end
+  | L [A 12; su; v] => match as_listof as_pos su, as_dict as_pos as_Q v with
+                       | Some su, Some v => of_gdict (dconv (img_sub_simple su) v) | _, _ => bad_input end
+  | L [A 13; su; v] => match as_listof as_pos su, as_aprofile v with
+                       | Some su, Some v => of_gdict (dconv (img_sub_approval su) v) | _, _ => bad_input end
+  | L [A 14; su; v] => match as_listof as_pos su, as_rprofile v with
+                       | Some su, Some v => of_gdict (dconv (img_sub_ranked su) v) | _, _ => bad_input end
+  | L [A 15; su; v] => match as_listof as_pos su, as_sprofile v with
+                       | Some su, Some v => of_gdict (dconv (img_sub_score su) v) | _, _ => bad_input end
+  | _ => bad_input
+  end.
